@@ -19,6 +19,8 @@
 //	env         os.Getenv / LookupEnv / Environ / Hostname / Getwd / Getpid / UserHomeDir / Args / TempDir … (process environment)
 //	tz          time.Local, time.LoadLocation, time.Unix* (values in the LOCAL zone), Time.Local / Zone / Location
 //	reflect-map reflect.Value.MapKeys / MapRange (map iteration through reflection)
+//	process-state write to process-local mutable state (field of a keeper / module / hook / ante struct, package-level
+//	            variable) outside constructors — see procstate.go
 //	typed-event call of cosmos-sdk EventManager.EmitTypedEvent(s) / TypedEventToEvent (v0.45.2 builds the attribute
 //	            list by ranging over a map: attribute order is random)
 //
@@ -63,6 +65,7 @@ type Site struct {
 	Expr  string `json:"expr"`
 	Count int    `json:"count"`
 	Auto  string `json:"auto,omitempty"` // non-empty: classified by the tool (no expectation needed)
+	Lines []string `json:"lines,omitempty"` // file:line of the occurrences (reporting only, not part of the match key)
 	Reach string `json:"reach,omitempty"` // with -reach: reachable | rta-unreachable | unreachable | init
 	// reachable      in the CHA graph and by rapid type analysis
 	// rta-unreachable reachable only through CHA's "every implementation of the interface" edges, not by RTA
@@ -165,6 +168,16 @@ type collector struct {
 	rel   string
 	sites map[string]*Site
 	funcs int
+	ps    *procState
+}
+
+// addAt is add + the source line of the occurrence (kept for the finding text)
+func (c *collector) addAt(fn, kind, expr string, pos token.Pos) {
+	c.add(fn, kind, expr, "")
+	k := c.rel + "\x00" + fn + "\x00" + kind + "\x00" + norm(expr)
+	if s, ok := c.sites[k]; ok {
+		s.Lines = append(s.Lines, fmt.Sprintf("%s:%d", c.rel, c.fset.Position(pos).Line))
+	}
 }
 
 func (c *collector) add(fn, kind, expr, auto string) {
@@ -686,6 +699,7 @@ func main() {
 	}
 	rep := Report{Repo: abs, ByKind: map[string]int{}}
 	all := map[string]*Site{}
+	resident := computeResident(pkgs)
 	for _, p := range pkgs {
 		for _, e := range p.Errors {
 			rep.Errors = append(rep.Errors, p.PkgPath+": "+e.Error())
@@ -704,13 +718,14 @@ func main() {
 				continue
 			}
 			rep.Files++
-			c := &collector{fset: p.Fset, info: p.TypesInfo, rel: rel, sites: all}
+			c := &collector{fset: p.Fset, info: p.TypesInfo, rel: rel, sites: all, ps: resident}
 			for _, d := range f.Decls {
 				switch x := d.(type) {
 				case *ast.FuncDecl:
 					rep.Funcs++
 					if x.Body != nil {
 						c.walkFunc(funcName(x), x)
+						c.procWrites(funcName(x), x.Body)
 					}
 				case *ast.GenDecl:
 					if x.Tok == token.IMPORT {
